@@ -4,6 +4,8 @@ scikit-image's radon and iradon functions fully implemented in Torch.
 Reference: van der Walt, S., et al. (2014). scikit-image: image processing in Python. PeerJ, 2, e453.
 """
 
+import math
+
 import torch
 import torch.nn.functional as F
 
@@ -116,6 +118,16 @@ def iradon_torch(
 
     if output_size is None:
         output_size = N if circle else int(torch.floor(torch.sqrt(torch.tensor(N**2 / 2.0))))
+
+    if circle:
+        # scikit-image's _sinogram_circle_to_square: pad the detector axis to the diagonal of the
+        # reconstruction, so that the filter size and the filtered values just outside the
+        # measured detector are those of skimage.transform.iradon
+        diagonal = int(math.ceil(math.sqrt(2) * N))
+        pad = diagonal - N
+        pad_before = diagonal // 2 - N // 2
+        sinograms = F.pad(sinograms, (pad_before, pad - pad_before))
+        N = diagonal
 
     # Padding for FFT
     padded_size = max(
